@@ -13,7 +13,9 @@ import Bng.Model.Epoch
     allocator and loads the store.  (Every operation makes at most one store WRITE, after the in-memory
     step, so "stop after every store operation" = restart between operations.)
   * `remotePut`/`remoteDel`: another node changed the shared store and the Watch callback
-    `handleRemoteChange` runs on this node.
+    `handleRemoteChange` runs on this node.  The store also echoes the node's OWN deletes to the watch
+    (as nexus.MemoryStore does): that matters for the records an epoch tick's cleanup deletes; the echo of
+    an own Put or of Release's delete finds memory already in that state and changes nothing.
   Announced prefixes are assumed aligned to their length (net.ParseCIDR masks them).
   Core Lean only.
 -/
@@ -99,6 +101,10 @@ def load (a : Bitmap.State) : List (Nat × Rec) → Bitmap.State
 /-- crash + restart: a fresh allocator over the same store -/
 def restart (s : State) (order : List Nat) : State :=
   { s with a := load (Bitmap.init s.a.cfg) (snapshot s.store order) }
+
+/-- Start: a failing Query of loadAllocations makes Start return an error — the node does not come up -/
+def start (s : State) (order : List Nat) (queryFails : Bool) : Option State :=
+  if queryFails then none else some (restart s order)
 
 /-- handleRemoteChange for a put -/
 def applyPut (a : Bitmap.State) (k : Nat) (r : Rec) : Bitmap.State :=
@@ -212,16 +218,43 @@ def restart (s : State) (order : List Nat) : State :=
   let r := load (Epoch.init s.a.cfg) s.store (snapshot s.store order)
   { a := r.1, store := r.2 }
 
+/-- Start: a failing Query of loadAllocations makes Start return an error — the node does not come up -/
+def start (s : State) (order : List Nat) (queryFails : Bool) : Option State :=
+  if queryFails then none else some (restart s order)
+
 /-- cleanupExpiredFromStore -/
 def cleanup (st : Store) (cur : Nat) : List (Nat × Rec) → Store
   | [] => st
   | (k, r) :: rest => if decide (r.epoch < cur - 2) then cleanup (AMap.erase st k) cur rest else cleanup st cur rest
 
-/-- one tick of epochLoop: AdvanceEpoch, then the store cleanup (skipped when its Query fails) -/
-def tick (s : State) (order : List Nat) (queryFails : Bool) : State × Obs :=
+/-- the store echoes a delete to its watchers (nexus.MemoryStore notifies on every Delete, the node's own
+    included): handleRemoteChange releases the subscriber in memory -/
+def echoDeletes (a : Epoch.State) : List Nat → Epoch.State
+  | [] => a
+  | k :: rest => echoDeletes (Epoch.release a k).1 rest
+
+/-- one tick of epochLoop without the watch echo: AdvanceEpoch, then the store cleanup (skipped when its Query
+    fails); also returns the subscribers whose records the cleanup deleted -/
+def tickCore (s : State) (order : List Nat) (queryFails : Bool) : State × List Nat :=
   let a' := (Epoch.advance s.a).1
-  let st' := if a'.epoch < 2 ∨ queryFails then s.store else cleanup s.store a'.epoch (snapshot s.store order)
-  ({ a := a', store := st' }, .num a'.epoch)
+  if a'.epoch < 2 ∨ queryFails then ({ a := a', store := s.store }, [])
+  else
+    let snap := snapshot s.store order
+    ({ a := a', store := cleanup s.store a'.epoch snap },
+     (snap.filter fun p => decide (p.2.epoch < a'.epoch - 2)).map (·.1))
+
+/-- one tick as the node sees it when nothing else happens in between: every record the cleanup deleted comes
+    back through the watch and releases that subscriber's lease in memory -/
+def tick (s : State) (order : List Nat) (queryFails : Bool) : State × Obs :=
+  let r := tickCore s order queryFails
+  ({ r.1 with a := echoDeletes r.1.a r.2 }, .num r.1.a.epoch)
+
+/-- the watch echo is asynchronous: a caller that re-allocates between the tick and the delivery of its delete
+    notifications has the FRESH lease released by the stale notification (finding KF-stale-delete-echo) -/
+def tickThenAllocThenEcho (s : State) (order : List Nat) (k : Nat) : State × Obs × Obs :=
+  let r := tickCore s order false
+  let r2 := alloc r.1 k false
+  ({ r2.1 with a := echoDeletes r2.1.a r.2 }, .num r.1.a.epoch, r2.2)
 
 /-- handleRemoteChange for a put in lease mode: the announced address is not used -/
 def applyPut (a : Epoch.State) (k : Nat) (r : Rec) : Epoch.State :=
